@@ -60,6 +60,15 @@ Definition read_rel (sg : stage) (q : nat) (got : list A) (d : nat) (t : option 
    t = match stake sg with Some t0 => Some (t0 - length got)%nat | None => None end /\
    pend = (if semit sg then got else []) /\ (forall t0, stake sg = Some t0 -> (q <= t0)%nat)).
 
+(** why a stage ends: normally (nothing pending; no input at all, or its request is used up, or end of
+    input on an empty pipe without writer), or by EPIPE on a pipe without reader *)
+Definition exit_rel (s : state) (i : nat) (sg : stage) (c : nat) : Prop :=
+  (c = 0%nat /\ spend sg = [] /\
+   (i = 0%nat \/ (sdrop sg = 0%nat /\ stake sg = Some 0%nat) \/
+    exists j p, i = S j /\ nth_error (pipes s) j = Some p /\ buf p = [] /\ wr p = 0%nat))
+  \/
+  (c = EPIPE_STATUS /\ spend sg <> [] /\ exists p, nth_error (pipes s) i = Some p /\ rd p = 0%nat).
+
 (** ---- the shape of a step ---- *)
 Inductive shape (s : state) : state -> Prop :=
 | sh_spawn sg :
@@ -85,7 +94,7 @@ Inductive shape (s : state) : state -> Prop :=
     (pend = got \/ pend = []) -> read_rel sg q got d t pend ->
     shape s (put_stage s (S j) (set_io sg d t pend) (upd j p' (pipes s)) (out s))
 | sh_exit i sg c :
-    nth_error (stages s) i = Some sg -> sst sg = Running ->
+    nth_error (stages s) i = Some sg -> sst sg = Running -> exit_rel s i sg c ->
     shape s (exit_stage s i sg c).
 
 Lemma next_shape s l s' : next s l = Some s' -> shape s s'.
@@ -101,12 +110,25 @@ Proof.
     destruct (spend sg) as [|a pend] eqn:Hp.
     + (* read side *)
       set (req := if (0 <? sdrop sg)%nat then Some (sdrop sg) else stake sg).
-      assert (Hex : forall c, Some (exit_stage s i sg c) = Some s' -> shape s s').
-      { intros c H; inversion H; subst. apply sh_exit; assumption. }
-      destruct req as [[|lim]|] eqn:Hreq; [apply Hex| |]; subst req.
-      * destruct i as [|j]; [apply Hex|].
+      assert (Hex : forall why : Prop, (why -> exit_rel s i sg 0%nat) -> why ->
+                      Some (exit_stage s i sg 0%nat) = Some s' -> shape s s').
+      { intros why Hw Hy H; inversion H; subst. apply sh_exit; auto. }
+      assert (Hex0 : i = 0%nat -> Some (exit_stage s i sg 0%nat) = Some s' -> shape s s').
+      { apply (Hex (i = 0%nat)). intros ->. left. auto. }
+      assert (HexE : forall q p, nth_error (pipes s) (pred i) = Some p -> i <> 0%nat -> pread q p = REof ->
+                     Some (exit_stage s i sg 0%nat) = Some s' -> shape s s').
+      { intros q p Hpj Hi0 Hr. apply (Hex True); [|exact I]. intros _. left. split; [reflexivity|]. split; [exact Hp|].
+        right. right. destruct i as [|j]; [contradiction|]. apply pread_eof in Hr. destruct Hr as [Hb Hw].
+        exists j, p. auto. }
+      destruct req as [[|lim]|] eqn:Hreq; subst req.
+      * apply (Hex True); [|exact I]. intros _. left. split; [reflexivity|]. split; [exact Hp|]. right. left.
+        destruct (0 <? sdrop sg)%nat eqn:Hd.
+        -- apply Nat.ltb_lt in Hd. inversion Hreq. lia.
+        -- apply Nat.ltb_ge in Hd. split; [lia|exact Hreq].
+      * destruct i as [|j]; [apply Hex0; reflexivity|].
         destruct (nth_error (pipes s) j) as [p|] eqn:Hpj; [|discriminate].
-        destruct (pread (Nat.min k (S lim)) p) as [p' got| |] eqn:Hr; [|apply Hex|discriminate].
+        destruct (pread (Nat.min k (S lim)) p) as [p' got| |] eqn:Hr;
+          [|apply (HexE (Nat.min k (S lim)) p); [exact Hpj|discriminate|exact Hr]|discriminate].
         intros H; inversion H; subst; clear H.
         destruct (0 <? sdrop sg)%nat eqn:Hd.
         -- apply Nat.ltb_lt in Hd. inversion Hreq as [Hs]. eapply sh_read; eauto.
@@ -114,9 +136,10 @@ Proof.
         -- apply Nat.ltb_ge in Hd. eapply sh_read; eauto; [destruct (semit sg); auto|].
            right. repeat split; auto; try lia.
            intros t0 Ht0. rewrite Ht0 in Hreq. inversion Hreq; subst. apply Nat.le_min_r.
-      * destruct i as [|j]; [apply Hex|].
+      * destruct i as [|j]; [apply Hex0; reflexivity|].
         destruct (nth_error (pipes s) j) as [p|] eqn:Hpj; [|discriminate].
-        destruct (pread k p) as [p' got| |] eqn:Hr; [|apply Hex|discriminate].
+        destruct (pread k p) as [p' got| |] eqn:Hr;
+          [|apply (HexE k p); [exact Hpj|discriminate|exact Hr]|discriminate].
         intros H; inversion H; subst; clear H.
         destruct (0 <? sdrop sg)%nat eqn:Hd; [discriminate|].
         apply Nat.ltb_ge in Hd. eapply sh_read; eauto; [destruct (semit sg); auto|].
@@ -128,7 +151,10 @@ Proof.
       * destruct (nth_error (pipes s) i) as [p|] eqn:Hpi; [|discriminate].
         destruct (pwrite C k p (a :: pend)) as [p' rest| |] eqn:Hw; [| |discriminate].
         -- intros H; inversion H; subst; clear H. eapply sh_write; eauto. rewrite Hp. exact Hw.
-        -- intros H; inversion H; subst. apply sh_exit; assumption.
+        -- intros H; inversion H; subst. apply sh_exit; auto. right. split; [reflexivity|].
+           split; [rewrite Hp; discriminate|]. exists p. split; [exact Hpi|].
+           unfold pwrite in Hw. destruct (rd p =? 0)%nat eqn:E; [apply Nat.eqb_eq; exact E|].
+           destruct (Nat.min k (Nat.min (space C p) (length (a :: pend))) =? 0)%nat; discriminate.
   - destruct ((pc s =? length (stages s))%nat && negb (inline_busy s)) eqn:Hc; [|discriminate].
     apply andb_true_iff in Hc. destruct Hc as [Hpc Hb]. apply Nat.eqb_eq in Hpc.
     apply negb_true_iff in Hb.
@@ -187,7 +213,7 @@ Proof.
   intros [Hlen Hpc Hwt Hst Hpi] Hsh.
   destruct Hsh as [sg Hb Hn | sg c Hpcn Hb Hn Hd | i sg m Hn Hr Hl Hm1 Hm2
                   | i sg p p' rest k Hn Hr Hp Hw | j sg p p' got q d t pend Hn Hr Hsp Hp Hrd Hpend Hrel
-                  | i sg c Hn Hr].
+                  | i sg c Hn Hr Hexit].
   - (* spawn *)
     assert (Hlt : (pc s < length (stages s))%nat) by (apply nth_error_Some; congruence).
     constructor; cbn [stages pipes pc wt].
